@@ -38,6 +38,23 @@ def collections_count_attr_stores(ctx, modname, clsname):
     return out
 
 
+def _gathered_by_argsort(mod, flow, v):
+    """v = A[P] with P = np.argsort(...) / X.argsort(): the argsort call, else None"""
+    if not (isinstance(v, ast.Subscript) and isinstance(v.slice, ast.Name)):
+        return None
+    d = flow.def_value(v.slice)
+    def is_argsort(c):
+        return isinstance(c, ast.Call) and ((full_call_name(mod, c) or "").split(".")[-1] == "argsort" or (isinstance(c.func, ast.Attribute) and c.func.attr == "argsort"))
+    if is_argsort(d):
+        # argsort(argsort(x)) / argsort(order) is the inverse permutation: the right way to undo a sort by gathering
+        arg = d.args[0] if d.args else (d.func.value if isinstance(d.func, ast.Attribute) else None)
+        ad = flow.def_value(arg) if isinstance(arg, ast.Name) else arg
+        if is_argsort(ad):
+            return None
+        return d
+    return None
+
+
 def run(ctx, chk, tier="quick"):
     chk.explanation = (
         "Order-cell evaluation of SplineTransmissivity.call_scalar over the three orderings of the "
@@ -315,6 +332,12 @@ def run(ctx, chk, tier="quick"):
                "call_scalar mapped over the elements with a floating-point result type",
                key="SplineTransmissivity.__call__|paths",
                why="np.vectorize without otypes takes the dtype from the first result: an integer T_min at or below the lowest knot truncates every later value")
+    elif not array_ok and unknown_array_path is not None and _gathered_by_argsort(mod, Flow.of(call), unknown_array_path) is not None:
+        perm = _gathered_by_argsort(mod, Flow.of(call), unknown_array_path)
+        chk.ob("C15.O3", False, where_of(call, unknown_array_path), "array path returns %s with %s = %s" % (ast.unparse(unknown_array_path)[:60], ast.unparse(unknown_array_path.slice), ast.unparse(perm)[:60]),
+               "each value at the position of its own level: scatter `out[order] = values`, or gather by the inverse permutation argsort(order)",
+               key="SplineTransmissivity.__call__|paths",
+               why="indexing by the sorting permutation sorts; applied to values that are already in sorted order it permutes them once more, so unless the permutation is its own inverse the values sit under other levels than their own and array and scalar arguments disagree")
     elif not array_ok and unknown_array_path is not None and scalar_ok and not any(
             isinstance(x, (ast.ListComp, ast.GeneratorExp)) for x in ast.walk(unknown_array_path)):
         chk.indeterminate("C15.O3", where_of(call, unknown_array_path), "array path of unrecognised form: %s" % ast.unparse(unknown_array_path)[:80])
